@@ -208,7 +208,7 @@ pub fn judge(c: &Case, o: &Result<Obs, String>) -> Option<(String, serde_json::V
 }
 
 pub fn run(cfg: &Cfg, rep: &mut Report) {
-  let total = cfg.n(100_000, 20_000_000);
+  let total = cfg.n(600_000, 20_000_000);
   let maxev = cfg.n(5, 9);
   let mut rng = Rng::new(cfg.seed ^ 0xC07);
   for i in 0..total {
